@@ -318,6 +318,10 @@ static std::string op_file(const std::vector<std::string>& w)
     if (fd >= 0) {
         close(fd);
     }
+    // opening, walking and reading a file never changes the caller's bytes
+    if (mem && g.n == b.size() && g.n && memcmp(g.ptr, b.data(), g.n) != 0) {
+        out += " caller-bytes-modified";
+    }
     return out;
 }
 
@@ -366,6 +370,10 @@ static std::string op_load(const std::vector<std::string>& w)
     }
     if (fd >= 0) {
         close(fd);
+    }
+    // loading (and destroying what was loaded) never changes the caller's bytes
+    if (mem && g.n == b.size() && g.n && memcmp(g.ptr, b.data(), g.n) != 0) {
+        return (e == SB_SUCCESS ? out : "e" + S(e)) + " caller-bytes-modified";
     }
     return e == SB_SUCCESS ? out : "e" + S(e);
 }
@@ -820,6 +828,13 @@ static std::string op_build(const std::vector<std::string>& w)
             if (e == SB_SUCCESS) {
                 cum += d;
                 marks.push_back(cum);
+            }
+        } else if (f[0] == "I" && f.size() == 2) {
+            // re-initialising with an invalid scale is a call that reports an error: the builder stays as it is
+            e = sb_trajectory_builder_init(&b, (uint8_t)atoi(f[1].c_str()), 0);
+            out += " I:" + code(e) + ":" + (b.buffer.stor_begin ? U(sb_buffer_size(&b.buffer)) : std::string("nobuf"));
+            if (b.buffer.stor_begin == 0) {
+                return out + " buf:lost";
             }
         } else if (f[0] == "F") {
             sb_trajectory_t tr;
